@@ -51,6 +51,9 @@ CHECKS = {
  "C15": ("definite-edge reachability to coin-moving bank functions/interface methods (with positive control) + capability type scan + provenance of GetSigners under path conditions",
          "No coin-moving bank keeper function or interface method is reachable from the 14 handlers, their stateless methods or the aol/did/pnft block hooks; the x/nft keeper never reads its bank keeper; AddRecord's signers are [feePayer, writer] iff a fee payer is named, else [writer]; all other messages have one signer; DeductFeeDecorator with the fee-grant keeper precedes signature verification.",
          "Trusts DeductFeeDecorator, baseapp atomicity of runMsgs, bank supply accounting."),
+ "C08": ("prefix/family coverage (who-may-call) + field agreement between exporter and importer + absence of authorization guards on the import call tree + loop-shape (no conditional skip) + key/value provenance of exported entries",
+         "Every store family handlers write is exported and imported through the same family's accessors, key type and separator; AOL/DID entries are stored whole and untouched; every Denom/Pnft field (incl. the current Owner) is read on the import call tree; no actor-vs-owner guard on the import path; exported key and value come from the same store entry; no export/import/list loop skips entries; no exporter iterates a Go map.",
+         "Trusts module manager dispatch, JSON/proto round trips; does not compare query answers."),
 }
 
 PENDING_REASON = "check not built yet in this round (planned per DESIGN.md section 4); no claim is made until the checker rule exists"
